@@ -61,16 +61,28 @@ def handleConvert (j : Json) : Json :=
   let file := decodeInputs j "file"
   let gen := decodeInputs j "gen"
   let genFn := (j.getObjValAs? Bool "gen_fn").toOption.getD false
-  let w : World := ⟨false, [], []⟩
-  let pairs : Option (List Pair) :=
-    if genFn then some (convertGenerator conv single list file gen .level w).1
-    else match (convert (fun f xs => xs.map f) conv single list file gen .returning .level w).1 with
-      | .list ps => some ps
-      | .nothing => none
+  let verbose : Verbose := if (j.getObjValAs? Bool "verbose_none").toOption.getD false then .none_ else .level
+  let sink : Sink := match (j.getObjValAs? String "sink").toOption with
+    | some "stdout" => .stdout
+    | some "file" => .file "out".toList
+    | _ => .returning
+  let w : World := ⟨(j.getObjValAs? Bool "logger_disabled").toOption.getD false, [], []⟩
   let enc (p : Pair) : Json := Json.arr #[(match p.1 with | .str s => Json.str (String.ofList s) | .other _ => Json.null), Json.str (String.ofList p.2)]
+  let (pairs, w') : Option (List Pair) × World :=
+    if genFn then
+      let r := convertGenerator conv single list file gen verbose w
+      (some r.1, r.2)
+    else
+      let r := convert (fun f xs => xs.map f) conv single list file gen sink verbose w
+      (match r.1 with | .list ps => some ps | .nothing => none, r.2)
+  let world := [("logger_after", Json.bool w'.loggerDisabled),
+                ("stdout", Json.arr (w'.stdout.map (fun l => Json.str (String.ofList l))).toArray),
+                ("file", match w'.files with
+                   | (_, ls) :: _ => Json.arr (ls.map (fun l => Json.str (String.ofList l))).toArray
+                   | [] => Json.null)]
   match pairs with
-  | some ps => Json.mkObj [("pairs", Json.arr (ps.map enc).toArray)]
-  | none => Json.mkObj [("pairs", Json.arr #[]), ("none", Json.bool true)]
+  | some ps => Json.mkObj ([("pairs", Json.arr (ps.map enc).toArray)] ++ world)
+  | none => Json.mkObj ([("pairs", Json.arr #[]), ("none", Json.bool true)] ++ world)
 
 open Gly.Api in
 def handleCli (j : Json) : Json :=
